@@ -21,6 +21,9 @@ type sliceCtx struct {
 	paramPaths map[*ssa.Parameter][][]int
 	paramWhole map[*ssa.Parameter]bool
 	cbDepth    int
+	// preciseCalls: a call of a module function contributes only what its results depend on (its arguments are
+	// reached through the parameters), not all of its arguments
+	preciseCalls bool
 }
 
 func backSlice(v ssa.Value) map[ssa.Value]bool {
@@ -34,6 +37,20 @@ func backSlice(v ssa.Value) map[ssa.Value]bool {
 func backSlicePath(v ssa.Value, path []int) (map[ssa.Value]bool, map[*ssa.Parameter][][]int) {
 	sc := &sliceCtx{seen: map[ssa.Value]bool{}}
 	sc.visitValuePath(v, path, nil, 0)
+	for p := range sc.paramWhole {
+		if sc.paramPaths == nil {
+			sc.paramPaths = map[*ssa.Parameter][][]int{}
+		}
+		sc.paramPaths[p] = append(sc.paramPaths[p], nil)
+	}
+	return sc.seen, sc.paramPaths
+}
+
+// backSlicePrecise: like backSlicePath(v, nil), but a call of a module function contributes only what its
+// results depend on.
+func backSlicePrecise(v ssa.Value) (map[ssa.Value]bool, map[*ssa.Parameter][][]int) {
+	sc := &sliceCtx{seen: map[ssa.Value]bool{}, preciseCalls: true}
+	sc.visit(v, nil)
 	for p := range sc.paramWhole {
 		if sc.paramPaths == nil {
 			sc.paramPaths = map[*ssa.Parameter][][]int{}
@@ -101,6 +118,24 @@ func (sc *sliceCtx) visit(v ssa.Value, stack []*ssa.Call) {
 			}
 		}
 	case *ssa.Call:
+		if sc.preciseCalls {
+			if cal := x.Common().StaticCallee(); cal != nil && inModule(cal) && len(stack) < 4 && cal.Blocks != nil {
+				// the callee is entered below: its parameters are bound to this call's arguments where its results
+				// depend on them; arguments the results do not depend on are not part of the slice
+				for _, b := range cal.Blocks {
+					for _, ins := range b.Instrs {
+						if r, ok := ins.(*ssa.Return); ok {
+							for _, rv := range r.Results {
+								sub := &sliceCtx{seen: sc.seen, preciseCalls: true, paramPaths: sc.paramPaths, paramWhole: sc.paramWhole}
+								sub.visitCallee(rv, append(append([]*ssa.Call{}, stack...), x))
+								sc.paramPaths, sc.paramWhole = sub.paramPaths, sub.paramWhole
+							}
+						}
+					}
+				}
+				return
+			}
+		}
 		for _, a := range x.Common().Args {
 			sc.visit(a, stack)
 		}
